@@ -65,6 +65,13 @@ Theorem c10_v1_account_spending_moves : forall s a u s' c r,
 Proof. exact v1_debit_moves. Qed.
 Print Assumptions c10_v1_account_spending_moves.
 
+(* ... and on every reachable state it can be taken: the debit never panics (the
+   AccountFunding.Sub in distributeRHP3AccountUsage cannot underflow). *)
+Theorem c10_v1_account_spending_total : forall (l : list op) (a : N) (u : ausage),
+  is_panic (debit_store (runs init l) a u) = false.
+Proof. exact v1_debit_total. Qed.
+Print Assumptions c10_v1_account_spending_total.
+
 (** * v2 *)
 
 (* An accepted RPC other than an account debit adds exactly the usage it was priced at. *)
